@@ -106,6 +106,9 @@ func (f *FS) gate(kind, arg string) int {
 	return v
 }
 
+// OpenFDs returns the number of descriptors opened through Open and not closed yet.
+func (f *FS) OpenFDs() int { f.mu.Lock(); defer f.mu.Unlock(); return len(f.vfd) }
+
 // Count returns the number of calls executed so far.
 func (f *FS) Count() int { f.mu.Lock(); defer f.mu.Unlock(); return f.seq }
 
